@@ -74,7 +74,9 @@ func (l *Labels) FromBytes(data []byte) error {
 	if err != nil {
 		return err
 	}
-	l.original = data
+	// keep a private copy: the caller is free to reuse its buffer afterwards
+	l.original = make([]byte, len(data))
+	copy(l.original, data)
 	l.Labels = labs
 	return nil
 }
